@@ -394,7 +394,10 @@ Definition norm_br (branch : option str) (ref : option bytes) : option bytes * o
   if nonempty ref then
     match ref with
     | Some r => match ref_to_branch_name r with
-                | Ok b => (None, Some b)
+                | Ok b => match branch_name_to_ref b with
+                          | Some r' => if bytes_eqb r' r then (None, Some b) else (ref, None)
+                          | None => (ref, None)
+                          end
                 | Err _ => (ref, None)
                 end
     | None => (ref, branch)
@@ -448,15 +451,20 @@ Proof.
     + cbn [nonempty] in H. inversion H; subst. split; [discriminate|exact I].
     + destruct (nonempty (Some r)) eqn:N.
       * destruct (ref_to_branch_name r) as [b|e] eqn:RB.
-        -- inversion H; subst. split; [discriminate|].
-           unfold ref_to_branch_name in RB.
-           destruct (bytes_eqb r HEAD); [inversion RB; subst; exists []; reflexivity|].
-           destruct (prefixb LOCAL_BRANCH_PREFIX r) eqn:P; [|discriminate].
-           destruct (utf8_decode false (skipn (List.length LOCAL_BRANCH_PREFIX) r)) as [s|] eqn:D;
-             [|discriminate].
-           inversion RB; subst. apply prefixb_split in P. cbn [wf_opt] in Hr.
-           rewrite P in Hr. apply wf_bytes_skip in Hr.
-           eexists. exact (utf8_decode_encode false _ _ Hr D).
+        -- assert (VB : valid_str b).
+           { unfold ref_to_branch_name in RB.
+             destruct (bytes_eqb r HEAD); [inversion RB; subst; exists []; reflexivity|].
+             destruct (prefixb LOCAL_BRANCH_PREFIX r) eqn:P; [|discriminate].
+             destruct (utf8_decode false (skipn (List.length LOCAL_BRANCH_PREFIX) r)) as [s|] eqn:D;
+               [|discriminate].
+             inversion RB; subst. apply prefixb_split in P. cbn [wf_opt] in Hr.
+             rewrite P in Hr. apply wf_bytes_skip in Hr.
+             eexists. exact (utf8_decode_encode false _ _ Hr D). }
+           destruct (branch_name_to_ref b) as [r'|].
+           ++ destruct (bytes_eqb r' r).
+              ** inversion H; subst. split; [discriminate|exact VB].
+              ** inversion H; subst. split; [intros _; split; [reflexivity|exact Hr]|exact I].
+           ++ inversion H; subst. split; [intros _; split; [reflexivity|exact Hr]|exact I].
         -- inversion H; subst. split; [intros _; split; [reflexivity|exact Hr]|exact I].
       * inversion H; subst. rewrite N. split; [discriminate|exact Hb].
   - cbn [nonempty] in H. inversion H; subst. split; [discriminate|exact Hb].
@@ -497,18 +505,81 @@ Proof.
     + exists L. split; [reflexivity|]. apply back_plain; assumption.
 Qed.
 
-(* the whole function: [L] is what the first half of git_url_to_bzr_url made of the location *)
+(* quoting the commas *)
+Lemma quote_commas_cons : forall c l,
+  quote_commas (c :: l) = (if c =? 44 then [37; 50; 67] else [c]) ++ quote_commas l.
+Proof.
+  intros c l. unfold quote_commas. rewrite !replace1_flat_map. cbn [flat_map].
+  rewrite (N.eqb_sym 44 c). reflexivity.
+Qed.
+
+Lemma quote_commas_no_comma : forall l, memb 44 (quote_commas l) = false.
+Proof.
+  induction l as [|c l IH]; [reflexivity|].
+  rewrite quote_commas_cons, memb_app, IH, orb_false_r.
+  destruct (N.eqb_spec c 44) as [E|E]; [reflexivity|].
+  unfold memb. cbn [existsb]. rewrite orb_false_r. apply N.eqb_neq. congruence.
+Qed.
+
+Lemma quote_commas_valid : forall l, valid_str l -> valid_str (quote_commas l).
+Proof.
+  induction l as [|c l IH]; intros [e He]; [exists []; reflexivity|].
+  rewrite utf8_encode_cons in He.
+  destruct (enc_cp false c) as [a|] eqn:Ha; [|discriminate].
+  destruct (utf8_encode false l) as [b|] eqn:Hb; [|discriminate].
+  destruct (IH (ex_intro _ b Hb)) as [b2 Hb2].
+  rewrite quote_commas_cons.
+  destruct (c =? 44).
+  - eexists. apply utf8_encode_app_some; [|exact Hb2]. reflexivity.
+  - eexists. apply utf8_encode_app_some; [|exact Hb2].
+    rewrite utf8_encode_cons, Ha. reflexivity.
+Qed.
+
+Lemma memb_last_seg : forall c u, memb c u = false -> memb c (last_seg u) = false.
+Proof.
+  intros c u H. unfold last_seg. rewrite <- (split_last_slash_cat u), memb_app in H.
+  apply orb_false_elim in H. tauto.
+Qed.
+
+Lemma memb_removelast : forall c (u : str), memb c u = false -> memb c (removelast u) = false.
+Proof.
+  intros c u H. destruct u as [|x u]; [reflexivity|].
+  assert (Hne : x :: u <> []) by discriminate.
+  rewrite (app_removelast_last 0 Hne), memb_app in H.
+  apply orb_false_elim in H. tauto.
+Qed.
+
+Lemma memb_strip_trailing_slash : forall c u,
+  memb c u = false -> memb c (strip_trailing_slash u) = false.
+Proof.
+  intros c u H. unfold strip_trailing_slash.
+  destruct (negb (ends_with_slash u)); [exact H|].
+  destruct (scheme_re u) as [[sch path]|]; [|apply memb_removelast; exact H].
+  destruct (index_of 47 path) as [i|]; [|exact H].
+  destruct (Nat.eqb (S i) (List.length path)); [exact H|apply memb_removelast; exact H].
+Qed.
+
+Lemma no_comma_plain : forall L, memb 44 L = false -> plain L = true.
+Proof.
+  intros L H. unfold plain.
+  rewrite (memb_last_seg 44 _ (memb_strip_trailing_slash 44 L H)), (memb_last_seg 44 L H).
+  reflexivity.
+Qed.
+
+(* the whole function: [L] is what the first half of git_url_to_bzr_url made of the location;
+   the URL that comes back is L with its commas quoted -- for EVERY L *)
 Theorem url_roundtrip : forall ssh_reser location L branch ref,
   url_head ssh_reser location = HCont L ->
-  valid_str L -> plain L = true -> valid_opt branch -> wf_opt ref ->
+  valid_str L -> valid_opt branch -> wf_opt ref ->
   (branch = None \/ ref = None) ->
   exists u, git_url_to_bzr_url ssh_reser location branch ref = Ok u /\
             bzr_url_to_git_url u
-            = Ok (L, ne_opt (snd (norm_br branch ref)), ne_opt (fst (norm_br branch ref))).
+            = Ok (quote_commas L, ne_opt (snd (norm_br branch ref)), ne_opt (fst (norm_br branch ref))).
 Proof.
-  intros ssh_reser location L branch ref HH HV HL Hb Hr Hone.
+  intros ssh_reser location L branch ref HH HV Hb Hr Hone.
   unfold git_url_to_bzr_url. rewrite HH.
-  destruct (attach_roundtrip L branch ref HV HL Hb Hr) as [u [H1 H2]].
+  destruct (attach_roundtrip (quote_commas L) branch ref (quote_commas_valid L HV)
+              (no_comma_plain _ (quote_commas_no_comma L)) Hb Hr) as [u [H1 H2]].
   exists u. split; [|exact H2].
   destruct Hone as [-> | ->]; [exact H1|destruct branch; exact H1].
 Qed.
@@ -535,32 +606,28 @@ Proof.
 Qed.
 
 Lemma norm_br_ref_heads : forall name e, name <> [] ->
+  prefixb REFS_SLASH name = false ->
   utf8_encode false name = Some e ->
   norm_br None (Some (LOCAL_BRANCH_PREFIX ++ e)) = (None, Some name).
 Proof.
-  intros name e Hne He. unfold norm_br.
+  intros name e Hne Hg He. unfold norm_br.
   replace (bytes_eqb (LOCAL_BRANCH_PREFIX ++ e) HEAD) with false by reflexivity.
   replace (nonempty (Some (LOCAL_BRANCH_PREFIX ++ e))) with true by reflexivity.
-  rewrite ref_to_branch_name_heads, (utf8_encode_decode_strict _ _ He). reflexivity.
+  rewrite ref_to_branch_name_heads, (utf8_encode_decode_strict _ _ He).
+  assert (B : branch_name_to_ref name = Some (LOCAL_BRANCH_PREFIX ++ e)).
+  { unfold branch_name_to_ref. destruct name as [|c name]; [contradiction|].
+    fold REFS_SLASH. rewrite Hg, He. reflexivity. }
+  rewrite B, bytes_eqb_refl. reflexivity.
 Qed.
 
-(* with a comma in the last segment the round trip fails *)
-Theorem url_roundtrip_comma_refuted :
-  exists location branch u,
-    git_url_to_bzr_url (fun l => l) location (Some branch) None = Ok u /\
-    url_head (fun l => l) location = HCont location /\
-    bzr_url_to_git_url u <> Ok (location, Some branch, None).
-Proof.
-  exists (asc "git://h/r,a=b"), (asc "x"), (asc "git://h/r,a=b,branch=x").
-  split; [vm_compute; reflexivity|]. split; [vm_compute; reflexivity|].
-  vm_compute. discriminate.
-Qed.
-
-Theorem url_roundtrip_comma_refuted_error :
-  exists location,
-    git_url_to_bzr_url (fun l => l) location None None = Ok location /\
-    bzr_url_to_git_url location = Err "ValueError".
-Proof. exists (asc "git://h/r,a"). split; vm_compute; reflexivity. Qed.
+(* a comma in the last segment (used to be read back as a segment parameter) *)
+Example url_roundtrip_comma_example :
+  git_url_to_bzr_url (fun l => l) (asc "git://h/r,a=b") (Some (asc "x")) None
+    = Ok (asc "git://h/r%2Ca=b,branch=x") /\
+  bzr_url_to_git_url (asc "git://h/r%2Ca=b,branch=x") = Ok (asc "git://h/r%2Ca=b", Some (asc "x"), None) /\
+  git_url_to_bzr_url (fun l => l) (asc "git://h/r,a") None None = Ok (asc "git://h/r%2Ca") /\
+  bzr_url_to_git_url (asc "git://h/r%2Ca") = Ok (asc "git://h/r%2Ca", None, None).
+Proof. repeat split; vm_compute; reflexivity. Qed.
 
 (* ------------------------------------------------------------------ *)
 (* parent location                                                    *)
@@ -615,20 +682,38 @@ Theorem parent_location_equivalent : forall ssh_reser rel name location cfg L br
   name <> [] ->
   bzr_url_to_git_url location = Ok (L, branch, ref) ->
   eff_ref branch ref = Some v -> wf_bytes v = true ->
-  rel L = L -> url_head ssh_reser L = HCont L -> valid_str L -> plain L = true ->
+  rel L = L -> url_head ssh_reser L = HCont L -> valid_str L ->
   exists cfg' u, set_parent rel name location cfg = Ok cfg' /\
                  get_parent_location ssh_reser name cfg' = Ok (Some u) /\
                  bzr_url_to_git_url u
-                 = Ok (L, ne_opt (snd (norm_br None (Some v))), ne_opt (fst (norm_br None (Some v)))).
+                 = Ok (quote_commas L,
+                       ne_opt (snd (norm_br None (Some v))), ne_opt (fst (norm_br None (Some v)))).
 Proof.
-  intros ssh_reser rel name location cfg L branch ref v Hn HB HE Hv Hrel HH HV HL.
+  intros ssh_reser rel name location cfg L branch ref v Hn HB HE Hv Hrel HH HV.
   destruct (parent_roundtrip_guarded ssh_reser rel name location cfg L branch ref v Hn HB HE)
     as [cfg' [H1 H2]].
   rewrite Hrel in H2.
-  destruct (url_roundtrip ssh_reser L L None (Some v) HH HV HL I Hv (or_introl eq_refl))
+  destruct (url_roundtrip ssh_reser L L None (Some v) HH HV I Hv (or_introl eq_refl))
     as [u [H3 H4]].
   exists cfg', u. split; [exact H1|]. split; [|exact H4].
   rewrite H2, H3. reflexivity.
+Qed.
+
+(* the (branch, ref) pair that comes back denotes exactly the ref that went in
+   (since the repair c5a74d8 also for refs/heads/refs/x and refs/heads/) *)
+Theorem norm_br_eff : forall r,
+  r <> [] -> bytes_eqb r HEAD = false ->
+  eff_ref (ne_opt (snd (norm_br None (Some r)))) (ne_opt (fst (norm_br None (Some r)))) = Some r.
+Proof.
+  intros r Hne Hh. unfold norm_br. rewrite Hh.
+  destruct r as [|c r]; [contradiction|]. cbn [nonempty].
+  destruct (ref_to_branch_name (c :: r)) as [b|e] eqn:RB; [|reflexivity].
+  destruct (branch_name_to_ref b) as [r'|] eqn:BR; [|reflexivity].
+  destruct (bytes_eqb r' (c :: r)) eqn:E; [|reflexivity].
+  apply bytes_eqb_eq in E. subst r'. cbn [fst snd].
+  destruct b as [|d b].
+  - cbn [branch_name_to_ref] in BR. apply Some_inj in BR. rewrite <- BR in Hh. discriminate.
+  - unfold ne_opt, eff_ref. cbn [nonempty]. exact BR.
 Qed.
 
 (* a branch that is not called like its remote (the defect repaired in /repo: the merge
